@@ -45,7 +45,7 @@ Init ==
     running |-> 0, maxRunning |-> 0,
     aliases |-> << >>,      \* alias bindings: [a, topic]
     stops |-> 0, stopProto |-> FALSE, stopError |-> FALSE, stopPeer |-> FALSE,
-    discOut |-> 0, discIn |-> FALSE, discInViol |-> FALSE, zeroSei |-> TRUE,
+    discOut |-> 0, discIn |-> FALSE, discPend |-> FALSE, discInViol |-> FALSE, ctlRun |-> {}, zeroSei |-> TRUE,
     expectDisc |-> -1,      \* v5: reason code the DISCONNECT must carry (-1 = no expectation)
     appDisc |-> FALSE,      \* the application supplied / asked for its own DISCONNECT
     connDone |-> FALSE, gateStop |-> FALSE,
@@ -187,10 +187,17 @@ OnIn(m, ev) ==
          ELSE AddReq(m, "ping", 0)
     [] ev.k = "DISCONNECT" ->
          \* ev.n = Session Expiry Interval carried by the packet (-1 = none)
-         LET viol == (m.role = "server" /\ ev.n > 0 /\ m.zeroSei) \/ (m.role = "client" /\ ev.n >= 0) IN
+         LET viol == (m.role = "server" /\ ev.n > 0 /\ m.zeroSei) \/ (m.role = "client" /\ ev.n >= 0)
+             \* the packet is RECEIVED when the endpoint reads it, and it does not read while earlier packets wait to be
+             \* dispatched or a control request is unanswered (the bytes sit in the transport): until the application
+             \* is told about the DISCONNECT the endpoint may still end the connection for reasons of its own
+             unread == m.ctlRun # {}        \* (a protocol-control handler is running: control calls are sequential)
+                       \/ (\E k \in 1..Len(m.reqs) : m.reqs[k].st = "wait")
+                       \/ (\E k \in 1..Len(m.pubs) : m.pubs[k].st = "arrived" /\ ~m.pubs[k].refused)
+         IN
          IF m.term THEN m
-         ELSE IF viol THEN NeedProto([m EXCEPT !.discIn = TRUE, !.discInViol = TRUE], "C15:disconnect-with-illegal-session-expiry-must-be-a-protocol-error")
-         ELSE End([m EXCEPT !.discIn = TRUE], "peer")
+         ELSE IF viol THEN NeedProto([m EXCEPT !.discIn = ~unread, !.discPend = unread, !.discInViol = TRUE], "C15:disconnect-with-illegal-session-expiry-must-be-a-protocol-error")
+         ELSE End([m EXCEPT !.discIn = ~unread, !.discPend = unread], "peer")
     [] OTHER -> m
 
 \* payload bytes held by the publish handlers that are running
@@ -203,6 +210,7 @@ RunningBytesBefore(m) == SumRunning(m.pubs, 1)
 ----------------------------------------------------------------------------
 OnHStart(m, ev) ==
   IF ev.k = "hs" THEN m
+  ELSE IF ev.k = "disc" /\ m.discPend THEN [m EXCEPT !.discIn = TRUE, !.discPend = FALSE]
   ELSE IF ev.k # "pub" THEN
     \* protocol-control handlers run in arrival order: the next waiting request of that kind
     LET kinds == IF ev.k = "pubrel" THEN {"pubrel", "pubrel_early"} ELSE {ev.k}
@@ -356,14 +364,20 @@ OnOutPubcomp(m, ev) ==
       e == IdxOf(m.reqs, LAMBDA r : r.kind = "pubrel_early" /\ r.id = ev.id /\ r.st = "wait")
       nf == IdxOf(m.reqs, LAMBDA r : r.kind = "pubrel_nf" /\ r.id = ev.id /\ r.st = "wait")
       i == IdxOf(m.pubs, LAMBDA p : p.id = ev.id /\ p.q = 2 /\ p.rel /\ ~p.comp)
+      \* several PUBRELs for one identifier may be waiting (a premature one and a later one for an identifier that
+      \* is free by then): responses come in request order, so the answer belongs to the OLDEST one it can answer
+      useJ == j > 0 /\ (m.ver = 3 \/ ev.r = 0)
+      useNf == nf > 0 /\ m.ver = 5 /\ ev.r = 146
+      useE == e > 0
+      first(a, ua, b, ub, c, uc) == ua /\ (ub => m.reqs[a].n < m.reqs[b].n) /\ (uc => m.reqs[a].n < m.reqs[c].n)
   IN
-  IF j > 0 /\ (m.ver = 3 \/ ev.r = 0) THEN
+  IF first(j, useJ, nf, useNf, e, useE) THEN
      LET m0 == [m EXCEPT !.reqs[j].st = "answered"]
          m1 == IF i > 0 THEN [m0 EXCEPT !.pubs[i].comp = TRUE] ELSE m0
      IN Ordered(m, m1, m.reqs[j].n)
-  ELSE IF nf > 0 /\ m.ver = 5 /\ ev.r = 146 THEN
+  ELSE IF first(nf, useNf, j, useJ, e, useE) THEN
      Ordered(m, [m EXCEPT !.reqs[nf].st = "answered"], m.reqs[nf].n)
-  ELSE IF e > 0 THEN
+  ELSE IF useE THEN
      \* answer to a premature / misplaced PUBREL: either completion or 0x92 is tolerated
      LET m0 == [m EXCEPT !.reqs[e].st = "answered"] IN
      IF i > 0 /\ ev.r = 0 THEN [m0 EXCEPT !.pubs[i].comp = TRUE]
@@ -490,9 +504,10 @@ Step(m, ev) ==
     [] ev.e = "in" -> OnIn(m, ev)
     [] ev.e = "out" -> OnOut(m, ev)
     [] ev.e = "connected" -> [m EXCEPT !.est = TRUE]
-    [] ev.e = "h_start" -> OnHStart(m, ev)
-    [] ev.e = "h_end" -> OnHEnd(m, ev)
-    [] ev.e = "h_drop" -> OnHDrop(m, ev)
+    [] ev.e = "h_start" -> LET m1 == OnHStart(m, ev) IN
+                           IF ev.k \notin {"pub", "hs"} THEN [m1 EXCEPT !.ctlRun = @ \cup {ev.s}] ELSE m1
+    [] ev.e = "h_end" -> [OnHEnd(m, ev) EXCEPT !.ctlRun = @ \ {ev.s}]
+    [] ev.e = "h_drop" -> [OnHDrop(m, ev) EXCEPT !.ctlRun = @ \ {ev.s}]
     [] ev.e = "ctl" -> OnCtl(m, ev)
     [] ev.e = "ctl_done" -> [m EXCEPT !.ctlDone = TRUE]
     [] ev.e = "pollall_done" ->
